@@ -68,6 +68,22 @@ func (e *lfEngine) doCall(fr *lfFrame, st *lfState, x *ssa.Call, k func(st *lfSt
 	// ---- module callees
 	var targets []*ssa.Function
 	var recvVal lfVal
+	// a function literal called directly (or through the local it was assigned to): interpret
+	// it with the variables it captured
+	if _, isMC := cc.Value.(*ssa.MakeClosure); isMC && !cc.IsInvoke() {
+		if vf, ok := e.val(fr, st, cc.Value).(vFunc); ok && vf.Fn != nil && vf.Fn.Blocks != nil && e.c.InModule(vf.Fn) && !e.c.reachesSend(vf.Fn) && fr.depth < e.maxDepth {
+			onSt := false
+			for p := fr; p != nil; p = p.parent {
+				if p.fn == vf.Fn {
+					onSt = true
+				}
+			}
+			if !onSt {
+				e.inline(fr, st, x, vf.Fn, vf.Bind, nil, k)
+				return
+			}
+		}
+	}
 	if f := cc.StaticCallee(); f != nil {
 		if e.c.InModule(f) && f.Blocks != nil && !e.c.reachesSend(f) {
 			if e.tracksSig(f.Signature) {
@@ -1104,8 +1120,14 @@ func (e *lfEngine) bitsIntercept(fr *lfFrame, st *lfState, x *ssa.Call, name str
 	case "github.com/gebn/bmc/pkg/ipmi.checksum":
 		res := e.fresh(st, x.Type(), "checksum").(vInt)
 		res.B = bvTagged("checksum:"+e.renderVal(e.val(fr, st, args[0])), 8)
-		if ln, ok := e.asSlice(st, e.val(fr, st, args[0]), args[0].Type(), "arg"); ok {
-			_ = ln
+		// remember what the digest covers, so that a comparison with it becomes an event
+		if sv, ok := e.val(fr, st, args[0]).(vSlice); ok && sv.Org != nil && len(res.E.T) == 1 {
+			for sy := range res.E.T {
+				if e.sumOf == nil {
+					e.sumOf = map[Sym]lfSumRef{}
+				}
+				e.sumOf[sy] = lfSumRef{Org: sv.Org.Name, Off: sv.Org.Off, Len: sv.Len}
+			}
 		}
 		return res, true
 	case "github.com/gebn/bmc/pkg/dcmi.rollingAvgPeriodDuration", "github.com/gebn/bmc/pkg/dcmi.rollingAvgPeriodByte":
